@@ -70,6 +70,18 @@ func c12Specs(c *run.Ctx) (media, frames []built) {
 			frames = append(frames, build(spec.Spec{Name: fmt.Sprintf("c12-sb-admitmode%d-set%d", mode, si), Base: "new", Calls: append(c12BaseCallsMode(mode), C{Op: "RequireSandboxOnIFrame", Ints: set})}))
 		}
 	}
+	// both forcing options together, alone and next to link options (which run between them on the same attribute list;
+	// relative URLs allowed so that href=x / src=x survive URL checking)
+	for admit := 0; admit < 2; admit++ {
+		for li, link := range [][]C{nil, {opt("RequireNoFollowOnLinks", true), opt("AllowRelativeURLs", true)},
+			{opt("AddTargetBlankToFullyQualifiedLinks", true), opt("RequireNoReferrerOnFullyQualifiedLinks", true), opt("AllowRelativeURLs", true)}} {
+			calls := append(c12BaseCalls(admit == 1), opt("RequireCrossOriginAnonymous", true), C{Op: "RequireSandboxOnIFrame", Ints: []int{2, 10}})
+			calls = append(calls, link...)
+			b := build(spec.Spec{Name: fmt.Sprintf("c12-both-link%d-admit%d", li, admit), Base: "new", Calls: calls})
+			media = append(media, b)
+			frames = append(frames, b)
+		}
+	}
 	// the sandbox list set more than once: the last call decides
 	for admit := 0; admit < 2; admit++ {
 		for hi, h := range [][]C{
